@@ -26,7 +26,7 @@ from common import Ctx, Outcome
 from . import decl_lib as L
 
 DRIVERS = ["Decl", "DeclYaml"]
-TABLES = False
+TABLES = True
 LEVEL = "proof"
 RULE = ("(sync) seeded random sync-only documents over the LA metamodel slice: 1-3 instructions, 1-4 sync entries per "
         "list, nesting depth <= 3, find keys on `name` drawn from strings with arbitrary characters (XML specials, "
